@@ -656,7 +656,11 @@ Definition summarise (s : sstate) : summary :=
              | FTxt => true
              | FJson => closed || match rows with [] => true | _ => false end
              | _ => closed
-             end) (Z.of_nat (length rows))
+             end)
+            (match f, closed with
+             | FCsv, false => -1     (* the files are still open: what reached the disk is not determined *)
+             | _, _ => Z.of_nat (length rows)
+             end)
   | SStub log _ _ closed => SumStub closed (Z.of_nat (length log))
   end.
 
